@@ -2261,40 +2261,18 @@ class Engine:
 
     # ---- arrays
     def nd_binary(self, f, a, b):
-        if isinstance(a, NDArr) and isinstance(b, NDArr):
-            return NDArr(self._nd_zip(f, a.data, b.data))
-        if isinstance(a, NDArr):
-            if isinstance(b, (list, tuple)):
-                return NDArr(self._nd_zip(f, a.data, list(b)))
-            if isinstance(b, SList) and b.is_concrete():
-                return NDArr(self._nd_zip(f, a.data, b.concrete()))
-            return NDArr(mapnd(lambda x: f(x, b), a.data))
-        if isinstance(a, (list, tuple)):
-            return NDArr(self._nd_zip(f, list(a), b.data))
-        if isinstance(a, SList) and a.is_concrete():
-            return NDArr(self._nd_zip(f, a.concrete(), b.data))
-        return NDArr(mapnd(lambda y: f(a, y), b.data))
-
-    def _nd_zip(self, f, x, y):
-        xl, yl = isinstance(x, list), isinstance(y, list)
-        if xl and yl:
-            if len(x) == len(y):
-                return [self._nd_zip(f, p, q) for p, q in zip(x, y)]
-            if len(x) == 1:
-                return [self._nd_zip(f, x[0], q) for q in y]
-            if len(y) == 1:
-                return [self._nd_zip(f, p, y[0]) for p in x]
-            # broadcasting of trailing dimensions: (n,m) op (m,)
-            if xl and x and isinstance(x[0], list) and not (y and isinstance(y[0], list)):
-                return [self._nd_zip(f, p, y) for p in x]
-            if yl and y and isinstance(y[0], list) and not (x and isinstance(x[0], list)):
-                return [self._nd_zip(f, x, q) for q in y]
-            raise PyRaise('ValueError', ('operands could not be broadcast',))
-        if xl:
-            return [self._nd_zip(f, p, y) for p in x]
-        if yl:
-            return [self._nd_zip(f, x, q) for q in y]
-        return f(x, y)
+        """elementwise f with numpy broadcasting (shapes aligned from the last axis; an axis of length 1 stretches)."""
+        A, B = nd_to_obj(self, a), nd_to_obj(self, b)
+        import numpy as _np
+        try:
+            shape = _np.broadcast_shapes(A.shape, B.shape)
+        except ValueError:
+            raise PyRaise('ValueError', ('operands could not be broadcast together',))
+        Ab, Bb = _np.broadcast_to(A, shape), _np.broadcast_to(B, shape)
+        out = _np.empty(shape, dtype=object)
+        for ix in _np.ndindex(*shape):
+            out[ix] = f(Ab[ix], Bb[ix])
+        return nd_from_obj(out)
 
     def sarr_binary(self, f, a, b):
         """elementwise operation on symbolic rank-1 arrays / scalars (lazy map)"""
@@ -2577,6 +2555,49 @@ class SuperProxy:
     def __init__(self, obj, cls):
         self.obj = obj
         self.cls = cls
+
+
+def nd_to_obj(eng, x):
+    """NDArr / nested concrete list / scalar -> numpy object array (0-d for a scalar)"""
+    import numpy as _np
+    if isinstance(x, NDArr):
+        sh = x.shape
+        o = _np.empty(sh, dtype=object)
+        for ix in _np.ndindex(*sh):
+            v = x.data
+            for k in ix:
+                v = v[k]
+            o[ix] = v
+        return o
+    if isinstance(x, SList) and x.is_concrete():
+        x = x.concrete()
+    if isinstance(x, (list, tuple)):
+        return nd_to_obj(eng, NDArr(_nested(eng, x)))
+    o = _np.empty((), dtype=object)
+    o[()] = x
+    return o
+
+
+def _nested(eng, x):
+    if isinstance(x, NDArr):
+        return x.data
+    if isinstance(x, SList) and x.is_concrete():
+        x = x.concrete()
+    if isinstance(x, (list, tuple)):
+        return [_nested(eng, y) for y in x]
+    return x
+
+
+def nd_from_obj(o):
+    """numpy object array -> NDArr (a 0-d array gives the scalar)"""
+    if o.ndim == 0:
+        return o[()]
+
+    def tolist(a):
+        if a.ndim == 1:
+            return [a[k] for k in range(a.shape[0])]
+        return [tolist(a[k]) for k in range(a.shape[0])]
+    return NDArr(tolist(o))
 
 
 def flat(d):
